@@ -28,6 +28,7 @@ def main():
         driver.run_e1(driver.build_e1(("serde-compat",)), "total", "quick", dump=dump)
         driver.e2_build("accepted", "quick")
     steps.append(("e2 accepted (items the derive accepts, from E1)", accepted))
+    steps.append(("e2 renamed (ts-rs known only as `tsx`)", lambda: driver.e2_compile_only("renamed", "quick")))
     for name, f in steps:
         t = time.time()
         try:
